@@ -10,6 +10,7 @@ A configuration line *is* the failing input; shrinking reduces archetypes, popul
 import itertools
 import os
 import re
+import shutil
 import time
 from concurrent.futures import ThreadPoolExecutor
 
@@ -132,10 +133,12 @@ def run_harness(exe, cfgs, threads, timeout):
                 results[todo[-1]["id"]] = (results[todo[-1]["id"]][0], "harness exit code %d\n%s" % (rc, err[-3000:]))
             break
         bad = todo[done]
-        what = "TIMEOUT" if rc == -999 else "harness died (rc=%d)" % rc
+        what = "TIMEOUT (harness hung)" if rc == -999 else "harness died (rc=%d)" % rc
         results[bad["id"]] = (tail, what + "\n" + err[-4000:])
         todo = todo[done + 1:]
         crashes += 1
+        if rc == -999:       # a hang costs the whole timeout: give up on the rest of this batch
+            break
     return results
 
 
@@ -470,8 +473,15 @@ def corpus_cfgs(gen):
 # evaluation of a batch
 # ------------------------------------------------------------------------------------------------
 
-def eval_batch(exe, drv, cfgs, threads, timeout=600):
+def batch_timeout(cfgs):
+    ents = sum(sum(a[1] for a in c["archs"]) for c in cfgs)
+    return 30 + 0.01 * len(cfgs) + ents / 20000.0
+
+
+def eval_batch(exe, drv, cfgs, threads, timeout=None):
     """Returns list of (cfg, oracle fails, tie diff or None, warchs, impl lines)."""
+    if timeout is None:
+        timeout = batch_timeout(cfgs)
     hres = run_harness(exe, cfgs, threads, timeout)
     mlines = []
     info = {}
@@ -482,7 +492,7 @@ def eval_batch(exe, drv, cfgs, threads, timeout=600):
         info[c["id"]] = (lines, crash, w)
         if not crash:
             mlines.append(model_line(c, w, threads))
-    rc, mblocks, merr = run_model(drv, mlines, timeout) if mlines else (0, {}, "")
+    rc, mblocks, merr = run_model(drv, mlines, max(timeout, 120)) if mlines else (0, {}, "")
     out = []
     for c in cfgs:
         lines, crash, w = info[c["id"]]
@@ -646,7 +656,24 @@ def run(ctx):
     t0 = time.time()
     exe, internals = build(ctx)
     INTERNALS = internals
-    drv = ctx.driver()
+    # private copy of the model driver: a concurrent `lake build` re-links the shared binary
+    drv = os.path.join(vlib.CACHE, "driver-c04-%d" % os.getpid())
+    for attempt in range(20):
+        try:
+            shutil.copy2(ctx.driver(), drv)
+            break
+        except (FileNotFoundError, OSError):
+            time.sleep(1.0)
+    try:
+        _run(ctx, exe, drv, internals, t0)
+    finally:
+        try:
+            os.unlink(drv)
+        except OSError:
+            pass
+
+
+def _run(ctx, exe, drv, internals, t0):
     gen = Gen(ctx.rng)
     threads_default = 3
     open_keys = [k for k in KNOWN if k in ctx.open_known]
@@ -685,17 +712,17 @@ def run(ctx):
         bs = 2000
         for i in range(0, len(small), bs):
             work.append(("exhaustive", threads_default, small[i:i + bs]))
-        nrand = 120000 if ctx.thorough else 6000
+        nrand = 300000 if ctx.thorough else 6000
         rnd = [random_cfg(gen, 40, 4) for _ in range(nrand)]
         for i in range(0, len(rnd), 1000):
             work.append(("random", (1, 2, 3, 7)[(i // 1000) % 4] if ctx.thorough else threads_default,
                          rnd[i:i + 1000]))
-        nmid = 3000 if ctx.thorough else 120
+        nmid = 6000 if ctx.thorough else 120
         mid = [random_cfg(gen, 600, 5) for _ in range(nmid)]
         for i in range(0, len(mid), 30):
             work.append(("random-mid", threads_default, mid[i:i + 30]))
         if ctx.thorough:
-            bigs = [random_cfg(gen, 50000, 3, big=True) for _ in range(90)]
+            bigs = [random_cfg(gen, 50000, 3, big=True) for _ in range(150)]
             # the real 16384 storage-chunk boundary, populations straddling it
             for (size, cs, T) in ((16384, 1000, 3), (16385, 4096, 5), (32769, 16384, 7), (50000, 1024, 9),
                                   (16383, 64, 2), (40000, 16384, 40001), (49999, 16384, 17)):
@@ -726,9 +753,15 @@ def run(ctx):
     oracle_fail = []
     tie_fail = []
 
+    state = {"fails": 0}
+
     def do(item):
         label, threads, cfgs = item
-        return label, threads, eval_batch(exe, drv, cfgs, threads)
+        if state["fails"] >= 40 and label not in ("corpus", "known", "replay"):
+            return label, threads, []       # enough failing inputs: do not grind through a broken tree
+        res = eval_batch(exe, drv, cfgs, threads)
+        state["fails"] += sum(1 for r in res if r[1])
+        return label, threads, res
 
     with ThreadPoolExecutor(max(2, min(10, vlib.NPROC - 4))) as ex:
         for (label, threads, res) in ex.map(do, work):
